@@ -87,3 +87,18 @@ Theorem C17_tortuosity_straight : forall (A : Type) (d : A -> A -> Q) p x, (0 < 
   (path_len d x p / d x (last p x) == 1)%Q.
 Proof. intros A. exact (@tortuosity_straight A). Qed.
 Print Assumptions C17_tortuosity_straight.
+
+(* the known deviation of flow_centrality (executable variant leaf_raw_impl, used to key the known findings) differs from the
+   specified tip-to-tip count only at nodes with at most one tip below them, where it reports 0 *)
+Theorem C17_leaf_flow_deviation_confined : forall t n, (1 < count_distal t n (leaves_of t))%Z -> leaf_raw_impl false t n = leaf_raw t n.
+Proof. exact leaf_raw_impl_agrees. Qed.
+Print Assumptions C17_leaf_flow_deviation_confined.
+Theorem C17_leaf_flow_deviation_zero : forall t n glob, (count_distal t n (leaves_of t) <= 1)%Z -> leaf_raw_impl glob t n = 0%Z.
+Proof. exact leaf_raw_impl_terminal. Qed.
+Print Assumptions C17_leaf_flow_deviation_zero.
+
+Theorem C17_min_twig_size_selects_short_twigs : forall t k l,
+  In l (short_twig_leaves t k) <->
+  exists r, In r (leaf_rows t) /\ rid r = l /\ exists tw, twig_walk t (anc t l) = Some tw /\ (S (length tw) < k)%nat.
+Proof. exact short_twig_leaves_spec. Qed.
+Print Assumptions C17_min_twig_size_selects_short_twigs.
